@@ -27,6 +27,20 @@ def explore(body, start_bb, root_is, mark_pred, init_constraints=None, max_paths
                 c_ = rv_.get("use", {}).get("const") if "use" in rv_ else None
                 if nv is None:
                     nv = dict(vals)
+                if "agg" in rv_ and rv_["agg"]["kind"] == "adt" and rv_["agg"].get("variant"):
+                    # enum value built on this path: later matches on it follow that variant only
+                    nv[l_] = ("v", rv_["agg"]["adt"], rv_["agg"]["variant"])
+                    nv.pop(("a", l_), None)
+                    continue
+                if "discr" in rv_ and not rv_["discr"]["proj"] and isinstance(nv.get(rv_["discr"]["l"]), tuple):
+                    _, adt_, var_ = nv[rv_["discr"]["l"]]
+                    dv_ = None
+                    for vv_ in body.facts.adts.get(adt_, {}).get("variants", []):
+                        if vv_["name"] == var_:
+                            dv_ = vv_["discr"]
+                    if dv_ is not None:
+                        nv[l_] = dv_
+                        continue
                 if c_ is not None and "value" in c_:
                     nv[l_] = c_["value"]
                 else:
